@@ -52,8 +52,10 @@ inductive Ev
   /-- the runtime's own bookkeeping for container `c` (it enters the store `SyncFn` reads),
       inside block `b`; may come before or after the relay -/
   | record (b : Bid) (c : Cid)
-  /-- `PluginSyncBlock.Unblock()` (RUnlock); the proviso of the property: not while a creation
-      made under this block has only one of its two halves done -/
+  /-- `PluginSyncBlock.Unblock()` (RUnlock, then `b.r = nil`); the proviso of the property: not
+      while a creation made under this block has only one of its two halves done. A second
+      `Unblock()` of the same block (e.g. an explicit one followed by the deferred one) is a
+      no-op. -/
   | unblock (b : Bid)
   /-- `requestPluginSync()` returned (Lock acquired) for plugin `p` -/
   | syncBegin (p : Pid)
@@ -117,8 +119,11 @@ def step? (s : State) : Ev → Option State
       else some { s with store := c :: s.store, half := (b, c) :: s.half }
     else none
   | .unblock b =>
-    if b ∈ s.holding ∧ (∀ x ∈ s.half, x.1 ≠ b) then
-      some { s with holding := s.holding.erase b } else none
+    -- `Unblock()` is documented "safe to call multiple times": on a block that is not (any
+    -- more) held it does nothing (`b.r == nil`)
+    if b ∈ s.holding then
+      if ∀ x ∈ s.half, x.1 ≠ b then some { s with holding := s.holding.erase b } else none
+    else some s
   | .syncBegin p =>
     if s.writer = none ∧ s.holding = [] ∧ (s.pl p).phase = .idle then
       some { s with writer := some p, pl := setP s.pl p { phase := .syncing } }
@@ -232,6 +237,22 @@ def stubUpdate {α ε : Type} (runtime : Option (List α → Option (List α) ×
     match call update with
     | (some failed, err) => (failed, err.map .rpc)
     | (none, err) => ([], err.map .rpc)
+
+/-- where a stub is in its life (`stub.Start`): `fresh` never started; `connecting` Start is
+    running but `stub.runtime` is not yet assigned (dialing, multiplexing); `registering`
+    `stub.runtime` is assigned, `RegisterPlugin`/`Configure` in progress (the plugin's Configure
+    handler runs in this phase); `started`; `stopped` (the closed client is kept) -/
+inductive StubPhase
+  | fresh | connecting | registering | started | stopped
+  deriving DecidableEq, Repr
+
+/-- the value of `stub.runtime` in each phase, given the client the connection provides -/
+def clientOf {α ε : Type} (ph : StubPhase) (client : List α → Option (List α) × Option ε) :
+    Option (List α → Option (List α) × Option ε) :=
+  match ph with
+  | .fresh => none
+  | .connecting => none
+  | _ => some client
 
 /-- the runtime client of a started stub connected to an adaptation whose callback is `fn` -/
 def connected {α ε : Type} (fn : List α → FnResult α ε) : List α → Option (List α) × Option ε :=
